@@ -1,6 +1,8 @@
 /- Kernel obligation: entries 0x9000..0x9fff of the live float16->code table `Gen.encP4` pass `encChk`
-   (one sixteenth of the table per file so that lake checks them in parallel; assembled in Proofs/C11_Tables.lean). -/
-import BitstringModel.Model.C11
+   (one sixteenth of the table per file so that lake checks them in parallel; depends only on the specification and on
+   this table; assembled in Proofs/C11_Tables.lean). -/
+import BitstringModel.Model.C11_Spec
+import BitstringModel.Gen.LutEncP4
 namespace BM.C11
-theorem encChunk_P4_09 : encChunkOk .p4 9 = true := by decide +kernel
+theorem encChunk_P4_09 : encChunkOkT Gen.encP4 Fmt.p4 .saturate 9 = true := by decide +kernel
 end BM.C11
